@@ -311,9 +311,122 @@ var c01ParamPairs = map[string][2]int{
 }
 
 func c01(c *an.Ctx) {
-	p := c.P
-
 	c.Check("R-PAIR", "executor: every index into a destination slice is the induction value of a loop over an aligned slice; WorkUnit literals and resolve*Batch calls get aligned pairs", 25, func(o *an.O) {
+		ruleExecutorAlignment(c, o)
+	})
+
+	c.Check("R-FRESH", "Flatten builds the merged selection set from fresh slices only (never appends onto a slice that belongs to the query)", 2, func(o *an.O) {
+		fn := c.NeedFunc(gq, "Flatten")
+		for _, f := range an.WithAnons(fn) {
+			an.Instrs(f, func(i ssa.Instruction) {
+				call, ok := i.(*ssa.Call)
+				if !ok {
+					return
+				}
+				b, ok := call.Call.Value.(*ssa.Builtin)
+				if !ok || b.Name() != "append" {
+					return
+				}
+				t := call.Call.Args[0].Type().String()
+				if !strings.HasSuffix(t, "graphql.Selection") && !strings.HasSuffix(t, "graphql.Fragment") {
+					return
+				}
+				o.Site(i)
+				if !freshSliceOrOwnField(call.Call.Args[0], 0) {
+					o.FailAt(i, "Flatten appends onto %s, a slice owned by the parsed query: when it has spare capacity the new elements are written into a backing array shared with other uses of the same selection set (e.g. another spread of the fragment), so the merged children of one place leak into another depending on scheduling", an.Short(an.Expr(call.Call.Args[0]), 60))
+				}
+			})
+		}
+	})
+	c01rest(c)
+}
+
+// freshSliceOrOwnField: v is nil, allocated here, a map element bucket, or a
+// field of a composite literal allocated here all of whose stores are fresh.
+func freshSliceOrOwnField(v ssa.Value, d int) bool {
+	return freshSliceSeen(v, map[ssa.Value]bool{})
+}
+
+func freshSliceSeen(v ssa.Value, seen map[ssa.Value]bool) bool {
+	if seen[v] {
+		return true // cycle through a phi: decided by the other edges
+	}
+	seen[v] = true
+	switch x := v.(type) {
+	case *ssa.Const:
+		return x.IsNil()
+	case *ssa.MakeSlice:
+		return true
+	case *ssa.Phi:
+		for _, e := range x.Edges {
+			if e == v {
+				continue
+			}
+			if !freshSliceSeen(e, seen) {
+				return false
+			}
+		}
+		return true
+	case *ssa.Call:
+		if b, ok := x.Call.Value.(*ssa.Builtin); ok && b.Name() == "append" {
+			return freshSliceSeen(x.Call.Args[0], seen)
+		}
+		return false
+	case *ssa.Lookup:
+		// bucket of a map built in this function
+		_, ok := an.Unload(x.X).(*ssa.MakeMap)
+		if !ok {
+			if ld, isLd := x.X.(*ssa.UnOp); isLd {
+				// captured local map variable
+				switch ld.X.(type) {
+				case *ssa.FreeVar, *ssa.Alloc:
+					return true
+				}
+			}
+		}
+		return ok
+	case *ssa.UnOp:
+		fa, ok := x.X.(*ssa.FieldAddr)
+		if !ok {
+			return false
+		}
+		al, ok := fa.X.(*ssa.Alloc)
+		if !ok {
+			return false
+		}
+		// every store into this field of the local literal must be fresh
+		for _, r := range *al.Referrers() {
+			fa2, ok := r.(*ssa.FieldAddr)
+			if !ok || fa2.Field != fa.Field {
+				continue
+			}
+			for _, u := range *fa2.Referrers() {
+				if st, ok := u.(*ssa.Store); ok && st.Addr == ssa.Value(fa2) {
+					if call, ok := st.Val.(*ssa.Call); ok {
+						if b, ok := call.Call.Value.(*ssa.Builtin); ok && b.Name() == "append" {
+							if ld, ok := call.Call.Args[0].(*ssa.UnOp); ok {
+								if fa3, ok := ld.X.(*ssa.FieldAddr); ok && fa3.X == ssa.Value(al) && fa3.Field == fa.Field {
+									continue // x.f = append(x.f, ...)
+								}
+							}
+						}
+					}
+					if !freshSliceSeen(st.Val, seen) {
+						return false
+					}
+				}
+			}
+		}
+		return true
+	}
+	return false
+}
+
+// ruleExecutorAlignment is shared by C01 (results land in the right object)
+// and C16 (error paths are built from the same parent chain).
+func ruleExecutorAlignment(c *an.Ctx, o *an.O) {
+	p := c.P
+	{
 		for _, fn := range p.ModuleFuncs(func(rel string) bool { return rel == gq }) {
 			if baseName(p.Fset.Position(fn.Pos()).Filename) != "batch_executor.go" {
 				continue
@@ -375,7 +488,11 @@ func c01(c *an.Ctx) {
 				// the selection/field of a split unit are the parent's
 			}
 		}
-	})
+	}
+}
+
+func c01rest(c *an.Ctx) {
+	p := c.P
 
 	c.Check("R-PAIR", "splitToNWorkUnits: source and destination of one element go to the same bucket; split units copy field/selection/ctx", 4, func(o *an.O) {
 		fn := c.NeedFunc(gq, "splitToNWorkUnits")
